@@ -29,6 +29,8 @@ NFile(j) == [dims |-> j.dims, vars |-> [i \in 1..Len(j.vars) |-> NVar(j.vars[i])
 EnfWF == IOEnv.PNC_E_WF = "1"
 EnfISO == IOEnv.PNC_E_ISO = "1"
 EnfVAL == IOEnv.PNC_E_VAL = "1"
+\* value clauses are enforced for the steps of this property ("*" = all)
+EnfProp == IOEnv.PNC_E_PROP
 
 VARIABLES tid, l, heap
 tvars == <<tid, l, heap>>
@@ -114,7 +116,7 @@ TStep ==
              /\ ChkS(tr, l + 1, "C01 " \o e.act \o ": result not well-formed", IF EnfWF THEN WFDiag(g) ELSE "")
              /\ ChkT(tr, l + 1, "C01 " \o e.act \o ": unlimited flag of a surviving dimension changed",
                      EnfWF => UnlimitedKept(heap[e.src], g))
-             /\ ((EnfVAL /\ InDomain(e, heap)) =>
+             /\ ((EnfVAL /\ EnfProp \in {"*", e.prop} /\ InDomain(e, heap)) =>
                    ChkS(tr, l + 1, e.prop \o " " \o e.act \o ": result differs from the specified result",
                         ResultDiff(e, heap, g)))
      /\ (l + 1 = Len(tr.steps) => TrAccept(tr))
